@@ -4,7 +4,7 @@
    The grouping statement over whole feeds ("exactly one output alert per group, informed stops = the distinct ids of the
    members") is decided on the real results by the engine's specification oracle; proved here: the step that keeps the
    informed stops duplicate-free and order-insensitive as a set, the skip rule, the effect rule, the id matcher on examples. *)
-From GV Require Import Base.Prelude Model.RtTypes Model.RtWire Model.Realtime Proofs.RealtimeProofs Gen.NyctTables Proofs.ElevatorProofs Gen.Footprint.
+From GV Require Import Base.Prelude Model.RtTypes Model.RtWire Model.Realtime Proofs.RealtimeProofs Gen.NyctTables Proofs.ElevatorProofs Proofs.TransparencyProofs Gen.Footprint.
 
 (* adding a member's platform / station id through the duplicate check: no duplicates, and the set grows by exactly that id *)
 Theorem C17_add_stop : forall s l, NoDup (stops_of l) ->
@@ -53,6 +53,20 @@ Print Assumptions C17_elevator_groups.
 Theorem C17_distinct_ids : forall l, NoDup (dedup l) /\ forall y, In y (dedup l) <-> In y l.
 Proof. exact dedup_spec. Qed.
 Print Assumptions C17_distinct_ids.
+
+(* ---- "alerts carrying no NYCT data and no elevator id are otherwise passed through unchanged", for EVERY message and every
+   option setting: when no alert-only entity has an elevator id, an lmm: prefix, a Mercury sort order or (with metadata
+   copying on) Mercury metadata, the parsed result is the one the parser gives with no extension at all ---- *)
+Theorem C17_transparent_message : forall cm tz policy station_ids skip_opt add_meta m, Forall (alert_plain add_meta) (fm_entities m) ->
+  parse_message cm tz (NyctAlerts policy station_ids skip_opt add_meta) m = parse_message cm tz NoExt m.
+Proof. exact nyctalerts_transparent. Qed.
+Print Assumptions C17_transparent_message.
+(* and what the extension does to the wire form of such a message is exactly: an absent cause becomes an explicit UNKNOWN_CAUSE *)
+Theorem C17_transparent_wire : forall policy station_ids skip_opt add_meta m, Forall (alert_plain add_meta) (fm_entities m) ->
+  let p := pre_pass (NyctAlerts policy station_ids skip_opt add_meta) m in
+  pr_entities p = map norm_entity (fm_entities m) /\ pr_skip p = map (fun _ => false) (fm_entities m).
+Proof. exact pre_pass_alerts_plain. Qed.
+Print Assumptions C17_transparent_wire.
 
 (* tie to the source: the elevator alert id pattern as it stands in nyctalerts.go now (elev_match implements this language) *)
 Example C17_regex_source : alookup "elevatorAlertIDRegex" regex_sources = Some "([[:alnum:]]{3}?)([SN]?)#EL(.*)".
